@@ -98,10 +98,16 @@ type c05burst struct {
 	Who     int    `json:"perturbed_client"` // 0 = leader
 	Mode    string `json:"transport"`
 	Backend string `json:"backend"`
+	Late    bool   `json:"late_joiner_after_hangup"`
+	Tiny    bool   `json:"cache_limit_below_body_size"`
 }
 
 func c05one(r *core.Recorder, w *c05world, p *rig.ProxyRig, o *rig.Origin, mode rig.Mode, bu c05burst, resNo int) {
 	r.Eval(1)
+	if bu.Tiny {
+		p = rig.StartProxy(rig.ProxyOpts{Backend: bu.Backend, Max: 8000})
+		defer p.Close()
+	}
 	res := &c05res{id: bu.ID, resNo: resNo, ver: 1, noStore: bu.Outcome == "uncacheable", gate: make(chan struct{}), arrived: make(chan struct{})}
 	w.mu.Lock()
 	w.res[bu.ID] = res
@@ -147,7 +153,7 @@ func c05one(r *core.Recorder, w *c05world, p *rig.ProxyRig, o *rig.Origin, mode 
 		}()
 	}
 
-	resps := make([]*rig.Resp, bu.N)
+	resps := make([]*rig.Resp, bu.N, bu.N+1)
 	var wg sync.WaitGroup
 	send := func(i int) {
 		q := rig.Req{Target: target, Timeout: 40 * time.Second}
@@ -187,6 +193,12 @@ func c05one(r *core.Recorder, w *c05world, p *rig.ProxyRig, o *rig.Origin, mode 
 	allIn := waitFor(func() bool { return w.enterCount(key.Hex) >= base+bu.N }, 10*time.Second)
 	if bu.Perturb == "disconnect-before-release" {
 		time.Sleep(60 * time.Millisecond) // let the perturbed client hang up while the origin still holds the fetch
+		if bu.Late {
+			// a late joiner: an identical GET arriving after the hang-up, the fetch still in flight
+			resps = resps[:bu.N+1] // (capacity reserved above: the other goroutines' slots stay where they are)
+			send(bu.N)
+			waitFor(func() bool { return w.enterCount(key.Hex) >= base+bu.N+1 }, 10*time.Second)
+		}
 	}
 	close(res.gate)
 	wg.Wait()
@@ -260,10 +272,13 @@ func c05one(r *core.Recorder, w *c05world, p *rig.ProxyRig, o *rig.Origin, mode 
 	if bu.Perturb == "delete-before-followers-reget" {
 		hi = bu.N + 1 // followers that find the entry gone fetch for themselves
 	}
-	if strings.HasPrefix(bu.Perturb, "disconnect") {
-		hi++ // the departing client's own fetch may be repeated once
+	if strings.HasPrefix(bu.Perturb, "disconnect") && bu.Outcome == "uncacheable" {
+		lo-- // the departed client does not fetch for itself
+	}
+	if bu.Late {
+		// one more client arrived after the hang-up while the fetch was still held: it joins the same fetch
 		if bu.Outcome == "uncacheable" {
-			lo--
+			hi++
 		}
 	}
 	if n < lo || n > hi {
@@ -276,7 +291,7 @@ func c05one(r *core.Recorder, w *c05world, p *rig.ProxyRig, o *rig.Origin, mode 
 				cond++
 			}
 		}
-		if cond > 1+map[bool]int{true: 1, false: 0}[strings.HasPrefix(bu.Perturb, "disconnect")] {
+		if cond > 1 {
 			r.Violation("C05", "C05:multiple-revalidations:"+bu.Perturb, fmt.Sprintf("%d conditional requests reached the origin for one stale entry", cond), cs, wit)
 		}
 	}
@@ -348,6 +363,18 @@ func c05Run(b core.Batch, r *core.Recorder) {
 		for _, who := range []int{0, 1} {
 			emit(c05burst{N: ns[i%len(ns)], State: "cold", Outcome: "uncacheable", Perturb: pe, Who: who})
 		}
+	}
+	for _, st := range states {
+		if st == "fresh" {
+			continue
+		}
+		for _, who := range []int{0, 1} {
+			emit(c05burst{N: 3, State: st, Outcome: "cacheable", Perturb: "disconnect-before-release", Who: who, Late: true})
+		}
+	}
+	// the same with a cache whose size limit is below the body size (the object cannot stay cached for long)
+	for _, n := range []int{2, 6} {
+		emit(c05burst{N: n, State: "cold", Outcome: "cacheable", Perturb: "none", Tiny: true})
 	}
 	for k := 0; k < b.Int("random", 10); k++ {
 		n := ns[rng.IntN(len(ns))]
